@@ -55,6 +55,22 @@ def old_sizes(repo):
     return v, b, rhs.strip(), barg.strip()
 
 
+def offsets(repo):
+    """two more size expressions of buffer.c that the models use: how far one buffer_getline call advances its
+    offset, and how many bytes buffer_vprintf reserves for a formatted string of n bytes"""
+    buf = open(os.path.join(repo, 'libks', 'buffer.c')).read()
+    adv = one(buf, r'^\s*getline->off \+= ([^;]+);', 'buffer.c buffer_getline_impl offset advance')
+    g = size_expr(adv, {'linelen': 'linelen'}, 'buffer.c getline advance')
+    res = one(buf, r'n < 0 \|\| buffer_reserve\(bf, \(size_t\)([^)]+)\)', 'buffer.c buffer_vprintf reservation')
+    r = size_expr(res, {'n': 'n'}, 'buffer.c vprintf reservation')
+    # the line handed out is the bytes up to the newline, NUL-terminated: pinned as text
+    for pat, what in ((r'buffer_puts\(getline->bf, line, linelen\);\s*buffer_putc\(getline->bf, \'\\0\'\);', 'buffer_getline_impl copies linelen bytes and a NUL'),
+                      (r'if \(getline->off >= bf->bf_len\)\s*goto done;', 'buffer_getline_impl end test'),
+                      (r'newline = memchr\(line, \'\\n\', bf->bf_len - getline->off\);', 'buffer_getline_impl newline search')):
+        one(buf, pat, 'buffer.c ' + what)
+    return g, r, adv.strip(), res.strip()
+
+
 def generate(repo):
     c = constants(repo)
     out = ['(* Gen_KsConst.v - GENERATED on every check by harness/t_ksconst.py from libks/{vector,buffer,map}.c.  Do not edit. *)',
@@ -67,6 +83,11 @@ def generate(repo):
             'Definition vector_oldlen (hdr len stride siz : Z) : Z := %s.' % v,
             '(* buffer_reserve: bf_callbacks.realloc(bf->bf_ptr, %s, newsiz, ...) *)' % bsrc,
             'Definition buffer_oldlen (len siz : Z) : Z := %s.' % b]
+    g, r, gsrc, rsrc = offsets(repo)
+    out += ['(* buffer_getline_impl: getline->off += %s *)' % gsrc,
+            'Definition getline_advance (linelen : Z) : Z := %s.' % g,
+            '(* buffer_vprintf: buffer_reserve(bf, (size_t)%s) *)' % rsrc,
+            'Definition printf_reserve (n : Z) : Z := %s.' % r]
     return {'Gen_KsConst.v': '\n'.join(out) + '\n'}
 
 
